@@ -436,7 +436,7 @@ func oneChain(w *trace.Writer, st *chainStats, seen map[string]bool, seed int64,
 		if b > 1 {
 			st.CachedBlocks++
 		}
-		if (coldErr == nil) != (warmErr == nil) || (coldErr == nil) != (nodeErr == nil) {
+		if coldErr != nil || warmErr != nil || nodeErr != nil { // the block comes from the real packer: nobody may refuse it
 			st.Divergences = append(st.Divergences, fmt.Sprintf("run %d block %d (signer %s): cold=%s warm=%s node=%v", run, num,
 				u.nodeName(&signer), cold, warm, nodeErr))
 		}
